@@ -243,6 +243,22 @@ CLAIMED["C17"] = dict(
     technique="runtime monitoring: history recording at the program boundary checked against an executable sequential model; blocked-forever monitor",
 )
 
+CLAIMED["C19"] = dict(
+    category="exploration",
+    text="Gluon driver functions (harness/src/props/c19_driver.glu, loaded once per VM) are called from Rust with "
+         "generated inputs and every answer is compared with the Rust model: std.map under sequences of 0-200 inserts "
+         "and finds over colliding String and Int keys vs BTreeMap (find answers, ordered keys, values); list.sort, "
+         "list.filter, list and array append, folds from both ends, slice, index, functor map, Ord and Eq on arrays vs "
+         "Vec / slice definitions; fifteen std.string functions vs str on multi-byte strings with indices on char "
+         "boundaries; JSON: a record type with derived Serialize / Deserialize is deserialised and serialised again and "
+         "must parse (serde_json) to the original value; derived Eq vs structural equality of the parsed values and "
+         "derived Show renders equal values equally and different values differently.",
+    design_ref="DESIGN.md §4 C19",
+    note="Random algebraic type declarations with derives are not generated (two fixed record types with nested "
+         "records, options and arrays are used); Show is judged by injectivity, not against an expected text.",
+    technique="runtime monitoring: differential against executable reference models (Rust std, serde_json) over generated operation sequences and inputs",
+)
+
 CLAIMED["C20"] = dict(
     category="exploration",
     text="For generated programs (complete, truncated, one token deleted) the typed or salvaged AST is obtained the way a "
